@@ -10,7 +10,7 @@ def run(report, replay=None):
         return lang_props.replay_record(report, replay)
     n = 2500 if report.tier == 'thorough' else 260
     plan = [('general', n, 30), ('routines', n // 4, 30), ('loops', n // 4, 25), ('matrix', n // 5, 25),
-            ('units', n // 5, 25), ('print', n // 5, 25), ('nested', n // 5, 25), ('tod', n // 8, 20)]
+            ('units', n // 5, 25), ('print', n // 3, 25), ('nested', n // 5, 25), ('tod', n // 8, 20)]
     lang_props.run_profiles(report, plan, corpus.records())
     report.assumptions += lang_props.ASSUMPTIONS
 
